@@ -136,7 +136,18 @@ func Load(dir string, overlay map[string][]byte) (*Eng, error) {
 			e.inlineNewHelpers(all)
 		}()
 		if err != nil {
-			return nil, err
+			// The program may be half-edited: load it again and analyse it as written.  The rules then
+			// see new helpers as opaque calls (they may report what moved into them), but the run
+			// still gives a verdict instead of failing.
+			msg := err.Error()
+			os.Setenv("AMVERIF_NOINLINE", "1")
+			e2, err2 := Load(dir, overlay)
+			os.Unsetenv("AMVERIF_NOINLINE")
+			if err2 != nil {
+				return nil, err2
+			}
+			e2.InlineLog = append(e2.InlineLog, "NOT APPLIED — "+msg+": new helpers are analysed as opaque calls in this run")
+			return e2, nil
 		}
 	}
 	for fn := range all {
